@@ -181,6 +181,36 @@ def _check_reset(ix, rep):
                                 f"cond_measure application ({txt}) — {why}", line=b.lineno)
     rep.floor("mid-circuit measurements in the MBQC pattern functions", n_sites, 62)
 
+    # a computational-basis measurement that *replaces* a parametrised one (diagonalize_mcms) keeps the reset request of the original:
+    # the call forwards postselect / meas_uid of a source measurement S, so it must forward S.reset as well
+    PM = "pennylane/ftqc/parametric_midmeasure.py"
+    pm = ix.module(PM)
+    rep.analysed(PM)
+    n_fw = 0
+    for call in [n for n in ast.walk(pm.tree) if isinstance(n, ast.Call)]:
+        cname = norm(call.func).split(".")[-1]
+        if not cname.endswith("MidMeasure"):
+            continue
+        srcs = {}
+        for kw in call.keywords:
+            if kw.arg in ("postselect", "meas_uid", "id", "reset") and isinstance(kw.value, ast.Attribute) and kw.value.attr == kw.arg:
+                srcs.setdefault(norm(kw.value.value), set()).add(kw.arg)
+        for src, attrs in srcs.items():
+            if not attrs & {"postselect", "meas_uid"}:
+                continue
+            n_fw += 1
+            f = _owner(ix, pm, call)
+            qn = f.qualname if f else "<module>"
+            rep.analysed(PM, qn)
+            where = f"{PM}:{qn} L{call.lineno} {cname}(… from {src})"
+            if "reset" in attrs:
+                rep.proved(RR, where, f"forwards {src}.reset together with {sorted(attrs - {'reset'})}")
+            else:
+                rep.refuted(RR, PM, qn, f"{cname}(…) rebuilt from {src} without reset={src}.reset",
+                            f"the measurement that replaces `{src}` forwards {sorted(attrs)} but not `reset`: a wire the pattern measures with reset=True is "
+                            f"handed back un-reset after diagonalisation — {why}", line=call.lineno)
+    rep.floor("measurements rebuilt from an existing one in parametric_midmeasure.py", n_fw, 2)
+
 
 # ---------------------------------------------------------------------------------------------
 # R-C74-wireorder
@@ -510,6 +540,16 @@ def check(ctx):
                         f"{gname} is propagated by {h.qualname} as {T.symplectic_text(composed, names)}"
                         f"; conjugation by {gname} maps {T.symplectic_text(tuple(frozenset({i}) for i in range(n)), names)} to {T.symplectic_text(ref, names)}",
                         line=hret.lineno)
+    # shortcuts: a return of the dispatcher that hands back the incoming frame (or a copy of it) without going through a helper is only
+    # right if every supported gate fixes that frame — CNOT does not fix (I, Z): Z on the target spreads to the control
+    for r_ in [n for n in walk_shallow(disp.node) if isinstance(n, ast.Return) and n.value is not None]:
+        v_ = r_.value
+        names_ = {x.id for x in ast.walk(v_) if isinstance(x, ast.Name)}
+        calls_ = [c for c in ast.walk(v_) if isinstance(c, ast.Call) and norm(c.func).split(".")[-1] not in ("tuple", "list", "copy", "deepcopy", "int")]
+        if xzp in names_ and not calls_:
+            rep.refuted(R, m.relpath, "commute_clifford_op", r_,
+                        f"`{norm(r_)[:70]}` returns the incoming frame without propagating it through a gate helper: for CNOT a frame with identity on the "
+                        "control and Z (or Y) on the target is not fixed (Z_t -> Z_c Z_t), so the recorded byproducts are wrong for that frame", line=r_.lineno)
     if n_gates == 0:
         # the dispatcher is written in a form whose argument binding this rule does not follow (merged isinstance branches, star
         # unpacking, …): decide the helpers on their own by the module's naming convention `_commute_<gate>` and positional reading
